@@ -1040,7 +1040,7 @@ def run(ctx):
     docs = []       # (recipe index, doc index, bytes, scratch-conformance wanted)
     raised = []
     odocs = []      # variant outputs checked by the direct oracle only (xmllint + Python bookkeeping)
-    in_coq = set(rng.sample(range(variant_first, len(recipes)), min(40 if quick else 400, len(recipes) - variant_first)))
+    in_coq = set(rng.sample(range(variant_first, len(recipes)), min(30 if quick else 400, len(recipes) - variant_first)))
     for ri, (r, res) in enumerate(zip(recipes, results)):
         if not res['ok']:
             raised.append({'recipe_index': ri, 'error': res['error']})
